@@ -38,7 +38,7 @@ type Case struct {
 }
 
 func genCase(t *rapid.T) Case {
-	rich := rapid.Bool().Draw(t, "rich")
+	rich := rapid.IntRange(0, 3).Draw(t, "rich") > 0
 	doc, info := gen.Spec(t, gen.SpecOpts{Rich: rich})
 	c := Case{Rich: rich && info.UsedSharedParam && info.UsedSharedResp && len(info.AllOfChildren) > 0}
 	n := rapid.SampledFrom([]int{0, 1, 1, 1, 2}).Draw(t, "nedits")
